@@ -5,10 +5,13 @@ from props import c01, c02, c03, c04
 RULE = ("the union of the C01 (in-bounds programs), C02 (out-of-bounds arguments), C03 (batcher flush shapes) and C04 (clipped "
         "contiguous fills) streams, re-checked on the implementation's trace with the framing recogniser (CASET RASET RAMWR PIX)* and the "
         "reference controller's anomaly flags (parameter count, start<=end, end inside the framebuffer under the current MV, pointer wrap); "
-        "non-trivial as in the originating stream")
+        "plus programs over the REAL transports (SPI, 8/16-bit parallel) on small panels whose pin-level logs are decoded in Coq, half of them "
+        "with a FAULT injected into the first call: every later call must still decode to well-framed groups; non-trivial as in the originating stream")
 TRUSTED = ["Oracle/Controller.v anomaly rules, Oracle/DrawSpec.v framing_ok"]
 ASSUMPTIONS = ["set_pixel / set_pixels arguments in bounds with at most area colours (documented precondition of the low-level API)"]
 PER_SHARD = 40
+CASE_TYPE = "(lcase * lout)"
+IMPORTS = "Require Import Corr.L2 Corr.DrawL."
 
 
 def gen(rng, tier, info):
@@ -20,10 +23,23 @@ def gen(rng, tier, info):
         for c in cs[::frac]:
             # only the Display programs at the Interface boundary (the other streams wrap their cases for their own checks)
             if isinstance(c.descr, dict) and c.line.startswith("prog") and c.descr.get("iface") not in (3, 4, 5):
-                cases.append(vlib.pcase(c.descr))
+                cases.append(drawgen.wrap_l(vlib.pcase(c.descr), False))
+    # at pin level over the real transports, incl. a call that FAILS at some pin / bus operation followed by further
+    # drawing calls: whatever the fault left behind, the later traffic must decode to well-framed groups
+    for k in range(160 if tier == "quick" else 1600):
+        pc, m, lw, lh, cmax = drawgen.l2_config(rng, info)
+        ops = []
+        for j in range(rng.range(2, 4)):
+            op = drawgen.op_inbounds(rng, lw, lh, cmax) if rng.chance(3, 4) else c02.op_any(rng, lw, lh, cmax, True)
+            fk = rng.choice([0, 1, 2, 3, 5, 8, 13, 21, 34, rng.range(0, 90)]) if (j == 0 and rng.chance(1, 2)) else -1
+            ops.append((fk, op))
+        pc["ops"] = ops
+        pc["tags"] = ["iface%d" % pc["iface"]] + (["fault"] if ops[0][0] >= 0 else []) + ["op:" + op[0] for _, op in ops]
+        pc["nontrivial"] = True
+        cases.append(drawgen.wrap_l(vlib.pcase(pc), True))
     return cases
 
 
-def shrink(case):
-    from props import drawgen
-    return drawgen.shrink_prog(case)
+from props import drawgen
+wrap_impl = drawgen.wrap_impl_l
+shrink = drawgen.shrink_l
